@@ -40,6 +40,24 @@ claimed = {
             "keeps them related, whole histories on real kinds and on plain maps give equal outputs, and no step is stuck "
             "when components are registered before use. Tie: exact transcript equality (including dense slice order, drop "
             "order, events) between the real World and the extracted faithful model on all 16 storages.", "5.C04"),
+    "C05": ("Theorems: on the specification machine, for every accepted history in which components are registered before "
+            "use, every storage resource is listed in the MetaTable and every index in any storage's mask belongs to an entity "
+            "that is alive or awaiting maintain (invariant proved through all creation, deletion, maintain and storage "
+            "operations, all registration paths); hence a newly created entity, including one that reuses an index, has no "
+            "component in any storage; delete_components removes the deleted entities' components from every storage known "
+            "to the world and leaves every other entity's component unchanged. Tie: histories of creations with components, "
+            "insertions, every deletion path (immediate, deferred, batches with a failing element, delete_all, dropped "
+            "builders), 1-16 storages made known by all four paths (some after entities exist), with every storage observed "
+            "after every deletion and after the creations that follow; a rejection by the plain-map specification at an "
+            "observation, or a difference in the values destroyed by a deletion, is the violation.", "5.C05"),
+    "C12": ("Theorems: for both wrappers over any inner kind, every Storage-API operation other than clear() and the "
+            "emission switch appends events whose replay over the old membership gives the new membership (the relation is "
+            "transitive, so it holds between a reader's registration and any later read); builder/lazy insertion and entity "
+            "deletion report through the same paths; with emission off, or on a plain storage, nothing is appended; Modified "
+            "is appended by FlaggedStorage on every get_mut and by DerefFlaggedStorage exactly when the returned access was "
+            "dereferenced mutably or written through; read-only operations append nothing. Tie: the ten wrapped storages with "
+            "readers registered early and read often, every removal path, emission toggled at random points; the events "
+            "delivered to each reader must equal the specification's.", "5.C12"),
     "C17": ("Theorem: in every accepted transcript each creation takes an index below the peak number of simultaneously "
             "not-yet-dead entities up to and including that creation (induction over the history, any length); the faithful "
             "(repaired) model refines the specification; the code as found is refuted by a vm_compute witness. Tie as C01 "
@@ -69,6 +87,8 @@ claimed["C11"] = (
     "extracted checker. Partial: shred's StagesBuilder, the World borrow flags and rayon live outside /repo and are "
     "modelled and validated, not verified; thread-local systems and batch dispatchers are not modelled.", "5.C11")
 ENGINE["C11"] = "coq-dispatch"
+claimed["C10"] = ("Theorems (Coq, closed under the global context) about the interleaving model Conc/AtomicLTS.v, for every number of threads, all finite programs over create / delete / is_alive / lazy push and every schedule (an arbitrary list of thread indices), from any allocator state R-related to a lifecycle state: handles returned to all threads have pairwise distinct indices and differ from every handle alive at the start; a returned handle is alive in every later state of the phase; a deletion request for a handle alive at the start or returned earlier passes the is_alive check, returns Ok and its index stays in killed; no step panics; when all threads have finished the shared state equals (up to the tree shape of the two sets) the state reached by the faithful sequential functions a_alloc_atomic / a_kill_atomic run in linearisation order, every thread received exactly the results that sequential run returns (linearisability), the state is R-related to the lifecycle state reached by the same creations and deferred deletions (so C01/C02/C17 take over at maintain), and the lazy queue is an interleaving of the threads' pushes (each once, program order kept). Tie: the real code runs in lock step under the same schedules through yield points between its atomic steps (hooks/c10_yield.patch); per-thread results, the allocator dump before and after maintain, the entities join and the run order of the queued actions must equal the extracted model's, and the extracted predicate c10_ok must hold on the implementation's transcript. Schedules are enumerated by the extracted model itself: every schedule of 2 threads x 1 op at full granularity, every schedule (up to the position of steps reading phase-immutable data) of 2x2 and 3x1 (thorough: full op alphabet, 3x2 with at most one creation) from four initial states, plus random programs and schedules (thorough: up to 8 threads x 6 ops) and a stress run on real threads." + " Partial: sequentially consistent interleavings only (Relaxed reorderings, spurious compare_exchange_weak failures and the multi-word updates inside hibitset's AtomicBitSet / crossbeam's queue are outside the model; a stress run on real threads samples them); the post-maintain alive-set equation is evaluated per case by the extracted checker, the theorems hand the final state to the sequential development.", "5.C10")
+ENGINE["C10"] = "coq-conc"
 REASONS = {}
 
 checks = []
@@ -86,8 +106,10 @@ m = {
               "enable": "RUSTFLAGS=\"--cfg specs_verif --check-cfg=cfg(specs_verif)\" (set by ./sv when it builds harness/)",
               "baseline_off_cmd": "cd /repo && cargo nextest run --workspace --no-fail-fast --tool-config-file "
                                   "pb:/w/lib/nextest.toml --profile pb --test-threads 8 --offline",
-              "source_commits": [], "add_only": True},
-    "engines": [{"name": "coq-dispatch", "path": "coq/theories/Dispatch", "serves_properties": ["C11"],
+              "source_commits": ["5d1200a"], "add_only": True},
+    "engines": [{"name": "coq-conc", "path": "coq/theories/Conc", "serves_properties": ["C10"],
+                 "kind_free_text": "Coq interleaving model of the allocator's atomic paths + lock-step executor over yield hooks"},
+                {"name": "coq-dispatch", "path": "coq/theories/Dispatch", "serves_properties": ["C11"],
                  "kind_free_text": "Coq model of shred's staging and borrow flags + instrumented real dispatch"},
                 {"name": "coq-derive", "path": "coq/theories/SaveLoad", "serves_properties": ["C18"],
                  "kind_free_text": "Coq model of the derive macros' output + generated Rust crates carrying the real derives"},
